@@ -357,6 +357,12 @@ func c14Portfolio_(spec c14Spec, res *core.CaseResult, verbose bool) {
 	if rs := wa.residue(c.Ctx); len(rs) > 0 {
 		res.Violate("C14/source-address-residue/"+residueClass(rs[0]), "%d records of the staking / distribution stores still carry the source address after migration: %s", len(rs), strings.Join(firstN(rs, 6), " "))
 	}
+	// the migrated chain must look like the twin that never migrated with the source address renamed to
+	// the target, record for record and index for index (staking and distribution stores)
+	res.Count("renamed_twin_comparisons", 1)
+	for _, d := range renamedTwinDiff(wa, wb) {
+		res.Violate("C14/differs-from-renamed-twin/"+d.class, "after migration the %s", d.text)
+	}
 	// by-validator queries return exactly the migrated records
 	for _, v := range sortedKeys(before.Shares) {
 		sh := before.Shares[v]
@@ -648,4 +654,86 @@ func sortedKeys(m map[string]string) []string {
 	}
 	sort.Strings(ks)
 	return ks
+}
+
+type twinDiff struct{ class, text string }
+
+// renamedTwinDiff compares the staking and distribution stores of the migrated chain with those of the twin
+// in which every occurrence of the source address (raw bytes in keys and values, bech32 text in values) is
+// replaced by the target address. Not compared: rewards and other amounts that the migration settles
+// (delegator starting info, outstanding / historical / current rewards, community pool), the withdraw-address
+// record, and the validators themselves (their token totals are equal but their records carry no delegator).
+func renamedTwinDiff(wa, wb *c14World) []twinDiff {
+	src, tgt := []byte(wa.src), []byte(wa.tgt.Acc())
+	srcB, tgtB := []byte(wa.src.String()), []byte(wa.tgt.Bech32())
+	ren := func(b string) string {
+		x := bytes.ReplaceAll([]byte(b), src, tgt)
+		return string(bytes.ReplaceAll(x, srcB, tgtB))
+	}
+	// staking prefixes that describe who delegated what to whom, and the queues that will pay out
+	compare := map[string]map[byte]string{
+		stakingtypes.StoreKey: {0x31: "delegation", 0x32: "unbonding delegation", 0x33: "unbonding-by-validator index", 0x34: "redelegation",
+			0x35: "redelegation-by-source-validator index", 0x36: "redelegation-by-destination-validator index", 0x41: "unbonding queue", 0x42: "redelegation queue",
+			0x71: "delegation-by-validator index", 0x38: "unbonding-id index"},
+	}
+	da := wa.c.Dump(wa.c.Ctx, stakingtypes.StoreKey)
+	db := wb.c.Dump(wb.c.Ctx, stakingtypes.StoreKey)
+	var out []twinDiff
+	for store, prefixes := range compare {
+		want := map[string]string{}
+		for k, v := range db[store] {
+			if len(k) > 0 {
+				if _, ok := prefixes[k[0]]; ok {
+					want[ren(k)] = ren(v)
+				}
+			}
+		}
+		got := map[string]string{}
+		for k, v := range da[store] {
+			if len(k) > 0 {
+				if _, ok := prefixes[k[0]]; ok {
+					got[k] = v
+				}
+			}
+		}
+		var keys []string
+		for k := range want {
+			keys = append(keys, k)
+		}
+		for k := range got {
+			if _, ok := want[k]; !ok {
+				keys = append(keys, k)
+			}
+		}
+		sort.Strings(keys)
+		for _, k := range keys {
+			name := prefixes[k[0]]
+			w, okW := want[k]
+			g, okG := got[k]
+			switch {
+			case okW && !okG:
+				out = append(out, twinDiff{store + "/" + name, fmt.Sprintf("%s %x is missing (the twin that never migrated has it for the source)", name, k)})
+			case !okW && okG:
+				out = append(out, twinDiff{store + "/" + name, fmt.Sprintf("%s %x exists although the never-migrated twin has no such record for the source", name, k)})
+			case w != g && !sameQueue(k[0], w, g):
+				out = append(out, twinDiff{store + "/" + name, fmt.Sprintf("%s %x holds %x, the renamed twin holds %x", name, k, g, w)})
+			}
+		}
+	}
+	return out
+}
+
+// sameQueue: the entries of a time-slot of the unbonding / redelegation queue form a set; the migration
+// may list them in another order.
+func sameQueue(prefix byte, a, b string) bool {
+	if prefix != 0x41 && prefix != 0x42 {
+		return false
+	}
+	if len(a) != len(b) {
+		return false
+	}
+	ca, cb := []byte(a), []byte(b)
+	sort.Slice(ca, func(i, j int) bool { return ca[i] < ca[j] })
+	sort.Slice(cb, func(i, j int) bool { return cb[i] < cb[j] })
+	return bytes.Equal(ca, cb)
 }
